@@ -423,6 +423,20 @@ Definition p_gheap (fuel : nat) (addr : N) : prog (list (N * bytes)) :=
     bind (p_read_bytes_at addr (snd vc)) (fun data =>
     lift (gcol_objs fuel o data (let s := 8 + o in if s mod 8 =? 0 then s else s + (8 - s mod 8)))))).
 
+(* Attribute.readVariableLengthString (attribute.go:373) and readVariableString (dataset_reader_compound.go:262):
+   a global heap reference resolved through its collection; data is the reference (after the 4-byte length for
+   attributes) *)
+Definition api_vlen_string (fuel : nat) (ref : bytes) : prog bytes :=
+  if negb ((o =? 4) || (o =? 8)) then Fail else
+  if blen ref <? o + 4 then Fail else
+  bind (lift (a <- rd_le ref 0 o;; i <- rd_le ref o 4;; Ok (a, i))) (fun ai =>
+  if fst ai =? 0 then Ret [] else
+  bind (p_gheap fuel (fst ai)) (fun objs =>
+  match find (fun x => fst x =? snd ai) objs with
+  | Some x => Ret (snd x)
+  | None => Fail
+  end)).
+
 (* ------------------------------------------------------------------ traditional groups (internal/structures) *)
 
 (* LoadLocalHeap (localheap.go:41): the data segment *)
